@@ -245,7 +245,13 @@ static void waiter(void * p)
 	int me = *(int *)p;
 	g->waitCall[me] = g->clock++;
 	if(g->waitKind[me] == 0) { g->q->wait(); g->waitResult[me] = 1; }
-	else g->waitResult[me] = g->q->waitFor(std::chrono::milliseconds(5)) ? 1 : 0;
+	else {
+		g_vf_wait_ns = -1;
+		g->waitResult[me] = g->q->waitFor(std::chrono::microseconds(1900)) ? 1 : 0;
+		// waitFor returns false only after ITS timeout: whatever relative timeout the library handed to the condition variable is not shorter
+		// than the 1.9 ms the caller asked for (not a whole number of milliseconds on purpose)
+		if(! g->waitResult[me] && g_vf_wait_ns >= 0) vf_assert(g_vf_wait_ns >= 1900000ll, 356);
+	}
 	g->waitRet[me] = g->clock++;
 	if(g->waitResult[me]) {
 		// wait returns, and waitFor returns true, only after observing a non-empty queue with notification enabled
